@@ -152,3 +152,13 @@ def to_tensors(case):
         ref, hyp = ref.t().contiguous(), hyp.t().contiguous()
     lay = layout_of(case)
     return relayout(ref, lay), relayout(hyp, lay)
+
+
+def costs_as_given(case):
+    """The three costs as the caller writes them: for a third of the cases every integral cost is a Python int
+    (``ins_cost=2``) instead of a float - the same numbers, another spelling."""
+    costs = list(case["costs"])
+    salt = case.get("R", 0) + 2 * case.get("H", 0) + len(case.get("ref", ()))
+    if salt % 3 == 1:
+        costs = [int(c) if float(c).is_integer() else c for c in costs]
+    return costs
